@@ -375,7 +375,7 @@ namespace cs
                     // less travelled forms: a type whose default constructor is noexcept but whose value constructor
                     // can fail; the type-erased array overload; arrays of length 0
                     using TN  = InstN<4, 4>;
-                    long form = o.arg(0) % 6, n = o.arg(1) % 17, k = o.arg(2);
+                    long form = o.arg(0) % 8, n = o.arg(1) % 17, k = o.arg(2);
                     switch (form)
                     {
                     case 0:
@@ -392,6 +392,12 @@ namespace cs
                         break;
                     case 4:
                         op_array<Inst<40, 16>>(c, env.la[0], 0, n, k % (n + 2)); // (n may be 0)
+                        break;
+                    case 6:
+                        op_shared<Inst<40, 64>>(c, env.la[0], 0, k % 3); // an over-aligned type (alignas(64))
+                        break;
+                    case 7:
+                        op_unique<Inst<40, 64>>(c, env.la[0], 0, k % 3);
                         break;
                     default:
                         op_array_any<Inst<100, 8>>(c, env.la[0], 4, 0, 0); // an array of no elements, type-erased
